@@ -171,6 +171,40 @@ def chk(case, acc, seed, ref=None):
     acc.case(case, nontrivial=bool(window.any()), outcome=f'{kind}-{int(window.sum() > 0)}-{cfg["dir"]}')
 
 
+def chk_round(case, acc, seed):
+    """two legs without a plane in between: pupil -> image (oversample o) -> back; the second leg must take the first leg's
+    output sampling du/o as its input sampling"""
+    import lentil
+    cfg = case['cfg']
+    w, fin = make_wavefront(dict(cfg, dir='p2i'), seed)
+    os_ = cfg['os']
+    du = cfg['du'] if np.ndim(cfg['du']) == 0 else tuple(cfg['du'])
+    shape1 = tuple(case['shape1'])
+    shape_out = (shape1[0] * os_, shape1[1] * os_)
+    ref1 = op.RefPlane(fin, op.alpha_exact(cfg['dx'], du, cfg['wl'], cfg['z'], os_), half=max(shape_out) // 2 + 2).on_grid(shape_out)
+    try:
+        o1 = lentil.propagate_dft(w, du, shape=shape1, oversample=os_)
+        du2 = op.DX * 0.75
+        o2 = lentil.propagate_dft(o1, du2, shape=tuple(case['shape2']), oversample=case['os2'])
+        val, cnt, _ = op.render(o2)
+    except Exception as e:
+        acc.violation(f'prop:roundtrip:raises:{type(e).__name__}', case, repr(e))
+        acc.case(case, outcome='raise')
+        return
+    dup = op.pair(du)
+    alpha2 = op.alpha_exact((dup[0] / os_, dup[1] / os_), du2, cfg['wl'], cfg['z'], case['os2'])
+    s2 = (case['shape2'][0] * case['os2'], case['shape2'][1] * case['os2'])
+    ref2 = rm.dft2(ref1, alpha2, shape=s2, unitary=True)
+    tol = 1e-8 * (1 + np.sum(np.abs(ref1)))
+    if not np.all(cnt == 1) or rm.maxerr(val, ref2) > tol:
+        acc.violation('prop:roundtrip:second-leg-sampling', case,
+                      f'image -> pupil leg after an oversample-{os_} first leg differs from the Fraunhofer sum with input sampling du/oversample by {rm.maxerr(val, ref2):.3e}')
+    if o2.ptype != lentil.pupil:
+        acc.violation('prop:meta:ptype', case, f'{o2.ptype}')
+    acc.cls('roundtrip')
+    acc.case(case, outcome='roundtrip')
+
+
 def t_cfg(arg, acc):
     tier, seed = arg['tier'], arg['seed']
     pupil, support, dxi, dui = tuple(arg['pupil']), arg['support'], arg['dx'], arg['du']
@@ -181,6 +215,11 @@ def t_cfg(arg, acc):
             for d in ('p2i', 'i2p'):
                 acc.states += 1
                 cfg = {'pupil': pupil, 'support': support, 'dx': dx, 'du': du, 'wl': wl, 'z': z, 'os': os_, 'dir': d}
+                if d == 'p2i':
+                    for sh1 in ((4, 4), (5, 4)):
+                        for os2 in (1, 2):
+                            acc.transitions += 1
+                            chk_round({'kind': 'round', 'cfg': cfg, 'shape1': sh1, 'shape2': (4, 5), 'os2': os2}, acc, seed)
                 _, fin = make_wavefront(cfg, seed)
                 ref = op.RefPlane(fin, op.alpha_exact(dx, du, wl, z, os_), half=14 if max(pupil) <= 5 else 16)
                 for shape in out_shapes(tier):
@@ -216,10 +255,10 @@ def run(tier, seed, acc, procs=None):
         'assumptions': ['reference Fraunhofer sum with exact rational phase (mc/refmodel.py), unitary scaling',
                         'evaluated window = centred prop window clipped to the output, intersected with the mask bounding box',
                         'tolerance 1e-9*(1+sum|f|)'],
-        'require': {'k:full': 100, 'k:win': 100, 'k:mask': 1000, 'nonempty-window': 1000},
+        'require': {'roundtrip': 100, 'k:full': 100, 'k:win': 100, 'k:mask': 1000, 'nonempty-window': 1000},
     }
 
 
 def replay(case, acc):
     seed = int(os.environ.get('VERIF_SEED', '0') or 0)
-    chk(case, acc, seed)
+    (chk_round if case['kind'] == 'round' else chk)(case, acc, seed)
